@@ -182,6 +182,10 @@ type StatusVectorChunk struct {
 
 // Marshal ..
 func (r StatusVectorChunk) Marshal() ([]byte, error) {
+	// the symbol size is a one-bit field
+	if r.SymbolSize > TypeTCCSymbolSizeTwoBit {
+		return nil, errFieldOutOfRange
+	}
 	chunk := make([]byte, 2)
 
 	// set first bit '1'
